@@ -22,23 +22,44 @@ Qed.
 
 (* ------------------------------------------------------------------ one step *)
 
-Lemma effect_apply f o : effect f (classify o) = fst (Filter.apply f o).
+Lemma valid_len c : invalid_arg c = false -> length (c_ip c) = 4%nat.
 Proof.
-  unfold classify. destruct o as [c|c]; cbn [op_cidr is_add]; unfold Filter.apply, add, remove;
-    destruct (invalid_arg c); cbn [effect fst]; try reflexivity;
-    destruct (arg_ones c =? 0); reflexivity.
+  unfold invalid_arg. destruct (mask_size (c_mask c)) as [ones bits].
+  destruct (Nat.eqb_spec (length (c_ip c)) 4) as [E|E]; [intros _; exact E|].
+  rewrite !orb_true_r. discriminate.
+Qed.
+
+(** on a well-formed filter no atomic section panics, and it does what the shadow does *)
+Lemma effect_ok f o : wf f -> effect f (classify o) = Some (fst (apply_t f o)).
+Proof.
+  intros W. unfold classify. destruct o as [c|c]; cbn [op_cidr is_add apply_t]; unfold add_t, remove_t;
+    destruct (invalid_arg c) eqn:Ei; cbn [effect fst]; try reflexivity;
+    destruct (arg_ones c =? 0) eqn:E0; cbn [effect fst]; try reflexivity;
+    destruct (valid_arg_spec c Ei) as [_ Hle];
+    unfold arg_nip, arg_nip_t; rewrite (be32_p_ok _ (valid_len c Ei)).
+  - apply add_locked_ok; [exact W | lia].
+  - apply remove_locked_ok; [exact W | lia].
 Qed.
 
 Lemma spec_run_snoc l o : spec_run (l ++ [o]) = spec_step (spec_run l) o.
 Proof. unfold spec_run, spec_run_from. rewrite fold_left_app. reflexivity. Qed.
 
-(** what a step can be *)
+(** invariant: the process has not crashed and the filter refines the live set *)
+Definition InvR (s : cstate) : Prop := crashed s = false /\ R (filt s) (live_at s).
+
+Lemma InvR_init progs : InvR (cinit progs).
+Proof. split; [reflexivity | exact R_init]. Qed.
+
+Lemma InvR_wf s : InvR s -> wf (filt s).
+Proof. intros [_ H]. exact (proj1 H). Qed.
+
+(** what a step from a state satisfying the invariant can be (in particular: never a crash) *)
 Inductive step_case (s : cstate) (l : label) (s' : cstate) : Prop :=
 | SC_upd th o rest :
     nth_error (threads s) (thread_of l) = Some th -> t_mid th = None -> t_todo th = CUpd o :: rest ->
     label_matches l (classify o) = true ->
-    s' = mkC (fst (Filter.apply (filt s) o)) (lin s ++ [o])
-             (upd (threads s) (thread_of l) (returned th (CUpd o) rest [])) ->
+    s' = mkC (fst (apply_t (filt s) o)) (lin s ++ [o])
+             (upd (threads s) (thread_of l) (returned th (CUpd o) rest [])) false ->
     step_case s l s'
 | SC_ret th ip rest r :
     nth_error (threads s) (thread_of l) = Some th -> t_mid th = None -> t_todo th = CLookup ip :: rest ->
@@ -54,50 +75,47 @@ Inductive step_case (s : cstate) (l : label) (s' : cstate) : Prop :=
 | SC_scan th nip ip rest :
     nth_error (threads s) (thread_of l) = Some th -> t_mid th = Some nip -> t_todo th = CLookup ip :: rest ->
     l = LockedScan (thread_of l) ->
-    s' = set_thread s (thread_of l) (returned th (CLookup ip) rest [(ip, scan (filt s) nip)]) ->
+    s' = set_thread s (thread_of l) (returned th (CLookup ip) rest [(ip, scan_t (filt s) nip)]) ->
     step_case s l s'.
 
-Lemma step_inv s l s' : step s l = Some s' -> step_case s l s'.
+Lemma step_inv s l s' : InvR s -> step s l = Some s' -> step_case s l s'.
 Proof.
-  unfold step. destruct (nth_error (threads s) (thread_of l)) as [th|] eqn:Eth; [|discriminate].
+  intros HI. pose proof (InvR_wf _ HI) as W. unfold step. rewrite (proj1 HI).
+  destruct (nth_error (threads s) (thread_of l)) as [th|] eqn:Eth; [|discriminate].
   destruct (t_mid th) as [nip|] eqn:Em.
   - destruct (t_todo th) as [|[o|ip] rest] eqn:Et; try discriminate.
-    destruct l; try discriminate. intros H. inversion H. eapply SC_scan; eauto.
+    destruct l; try discriminate. rewrite (scan_ok _ nip W). intros H. inversion H. eapply SC_scan; eauto.
   - destruct (t_todo th) as [|[o|ip] rest] eqn:Et; try discriminate.
-    + destruct (label_matches l (classify o)) eqn:Elm; [|discriminate]. intros H. inversion H.
-      eapply SC_upd; eauto. rewrite effect_apply. reflexivity.
+    + destruct (label_matches l (classify o)) eqn:Elm; [|discriminate]. rewrite (effect_ok _ o W).
+      intros H. inversion H. eapply SC_upd; eauto.
     + destruct l; try discriminate.
       destruct (match_all (filt s)) eqn:Ema.
       * intros H. inversion H. eapply SC_ret with (r := true); eauto.
-      * destruct (to4 ip) as [b|] eqn:E4; intros H; inversion H.
-        -- eapply SC_begin; eauto; try (rewrite Et; reflexivity).
-        -- eapply SC_ret with (r := false); eauto; try (right; auto).
+      * destruct (to4 ip) as [b|] eqn:E4.
+        -- rewrite (be32_p_ok b (to4_length _ _ E4)). intros H. inversion H.
+           eapply SC_begin; eauto; try (rewrite Et; reflexivity).
+        -- intros H. inversion H. eapply SC_ret with (r := false); eauto; try (right; auto).
 Qed.
 
 (** a step of one thread leaves the others alone *)
 Lemma step_other s l s' t :
-  step s l = Some s' -> thread_of l <> t -> nth_error (threads s') t = nth_error (threads s) t.
+  InvR s -> step s l = Some s' -> thread_of l <> t -> nth_error (threads s') t = nth_error (threads s) t.
 Proof.
-  intros H Ne. apply step_inv in H. destruct H; subst s'; cbn [threads set_thread];
+  intros HI H Ne. apply (step_inv _ _ _ HI) in H. destruct H; subst s'; cbn [threads set_thread];
     apply nth_error_upd_neq; exact Ne.
 Qed.
 
 Lemma results_other s l s' t :
-  step s l = Some s' -> thread_of l <> t -> results_of s' t = results_of s t.
-Proof. intros H Ne. unfold results_of. rewrite (step_other _ _ _ _ H Ne). reflexivity. Qed.
+  InvR s -> step s l = Some s' -> thread_of l <> t -> results_of s' t = results_of s t.
+Proof. intros HI H Ne. unfold results_of. rewrite (step_other _ _ _ _ HI H Ne). reflexivity. Qed.
 
 (* ------------------------------------------------------------------ invariant: the filter refines the live set *)
 
-Definition InvR (s : cstate) : Prop := R (filt s) (live_at s).
-
-Lemma InvR_init progs : InvR (cinit progs).
-Proof. exact R_init. Qed.
-
 Lemma InvR_step s l s' : InvR s -> step s l = Some s' -> InvR s'.
 Proof.
-  unfold InvR, live_at. intros H St. apply step_inv in St.
-  destruct St; subst s'; cbn [filt lin set_thread]; try exact H.
-  rewrite spec_run_snoc. apply R_step. exact H.
+  intros H St. apply (step_inv _ _ _ H) in St. destruct H as [Hc H]. unfold InvR, live_at in *.
+  destruct St; subst s'; cbn [filt lin set_thread crashed]; try (split; [exact Hc | exact H]).
+  split; [reflexivity|]. rewrite spec_run_snoc. apply R_step. exact H.
 Qed.
 
 Lemma InvR_exec ls : forall s v f,
@@ -129,24 +147,25 @@ Qed.
 
 (** thread [t] sits between its two labels; the call ends exactly at the end of the segment *)
 Lemma pending_scan t nip ip0 rest R0 : forall seg s1 th visited s' ip r,
+  InvR s1 ->
   nth_error (threads s1) t = Some th -> t_mid th = Some nip -> t_todo th = CLookup ip0 :: rest ->
   t_results th = R0 ->
   exec s1 seg = Some (visited, s') ->
   (forall v, In v visited -> results_of v t = R0) ->
   results_of s' t = R0 ++ [(ip, r)] ->
-  exists vlast, In vlast visited /\ ip = ip0 /\ r = scan (filt vlast) nip.
+  exists vlast, In vlast visited /\ ip = ip0 /\ r = scan_t (filt vlast) nip.
 Proof.
-  induction seg as [|l seg IH]; intros s1 th visited s' ip r Hth Hm Ht HR E Hv Hr; cbn [exec] in E.
+  induction seg as [|l seg IH]; intros s1 th visited s' ip r HI1 Hth Hm Ht HR E Hv Hr; cbn [exec] in E.
   - inversion E. subst s'. unfold results_of in Hr. rewrite Hth, HR in Hr.
     exfalso. exact (app_one_neq _ _ Hr).
   - destruct (step s1 l) as [s2|] eqn:St; [|discriminate].
     destruct (exec s2 seg) as [[v2 f2]|] eqn:E2; [|discriminate]. inversion E. subst visited s'. clear E.
     destruct (Nat.eq_dec (thread_of l) t) as [Et|Ne].
-    + pose proof (step_inv _ _ _ St) as C.
+    + pose proof (step_inv _ _ _ HI1 St) as C.
       destruct C as [th' o rest' H1 H2|th' ip' rest' r' H1 H2|th' ip' rest' b H1 H2|th' nip' ip' rest' H1 H2 H3 Hl Hs];
         rewrite Et in *; rewrite Hth in H1; inversion H1; subst th'; try congruence.
       rewrite Hm in H2. inversion H2. subst nip'. rewrite Ht in H3. inversion H3. subst ip' rest'.
-      assert (Hres2 : results_of s2 t = R0 ++ [(ip0, scan (filt s1) nip)]).
+      assert (Hres2 : results_of s2 t = R0 ++ [(ip0, scan_t (filt s1) nip)]).
       { subst s2. unfold results_of, set_thread. cbn [threads].
         rewrite (nth_error_upd_eq _ _ _ _ Hth). cbn [returned t_results]. rewrite HR. reflexivity. }
       destruct seg as [|l2 seg2].
@@ -157,8 +176,8 @@ Proof.
         destruct (exec s3 seg2) as [[v3 f3]|]; [|discriminate]. inversion E2. subst v2.
         assert (Hin : In s2 (s1 :: s2 :: v3)) by (right; left; reflexivity).
         specialize (Hv s2 Hin). rewrite Hres2 in Hv. symmetry in Hv. exact (app_one_neq _ _ Hv).
-    + assert (Hth2 : nth_error (threads s2) t = Some th) by (rewrite (step_other _ _ _ _ St Ne); exact Hth).
-      destruct (IH s2 th v2 f2 ip r Hth2 Hm Ht HR E2) as [vl [Hin Hrest]].
+    + assert (Hth2 : nth_error (threads s2) t = Some th) by (rewrite (step_other _ _ _ _ HI1 St Ne); exact Hth).
+      destruct (IH s2 th v2 f2 ip r (InvR_step _ _ _ HI1 St) Hth2 Hm Ht HR E2) as [vl [Hin Hrest]].
       * intros v Hin. apply Hv. right. exact Hin.
       * exact Hr.
       * exists vl. split; [right; exact Hin | exact Hrest].
@@ -189,8 +208,8 @@ Proof.
   cbn [exec] in E. destruct (step s (LoadMatchAll t)) as [s1|] eqn:St; [|discriminate].
   destruct (exec s1 seg) as [[v1 f1]|] eqn:E1; [|discriminate]. inversion E. subst visited s'. clear E.
   assert (Hs_in : In s (s :: v1)) by (left; reflexivity).
-  pose proof HI as (_ & Hma & _). unfold live_at in Hma.
-  pose proof (step_inv _ _ _ St) as C.
+  pose proof HI as (_ & _ & Hma & _). unfold live_at in Hma.
+  pose proof (step_inv _ _ _ HI St) as C.
   destruct C as [th o rest H1 H2 H3 Hlm Hs|th ip0 rest r0 H1 H2 H3 Hl Hcase Hs|th ip0 rest b H1 H2 H3 Hl Hma0 H4 Hs|th nip ip0 rest H1 H2 H3 Hl Hs];
     cbn [thread_of label_matches] in *; try discriminate.
   - (* the call returns at its first label *)
@@ -216,13 +235,13 @@ Proof.
     assert (Hth1 : nth_error (threads s1) t = Some (mkT (t_done th) (t_todo th) (Some (be32 b)) (t_results th))).
     { subst s1. unfold set_thread. cbn [threads]. exact (nth_error_upd_eq _ _ _ _ H1). }
     assert (HR0 : results_of s t = t_results th) by (unfold results_of; rewrite H1; reflexivity).
-    destruct (pending_scan t (be32 b) ip0 rest (t_results th) seg s1 _ v1 f1 ip r Hth1 eq_refl H3 eq_refl E1)
+    destruct (pending_scan t (be32 b) ip0 rest (t_results th) seg s1 _ v1 f1 ip r (InvR_step _ _ _ HI St) Hth1 eq_refl H3 eq_refl E1)
       as [vl [Hin [Hip Hscan]]].
     + intros v Hin. rewrite <- HR0. apply Hv. right. exact Hin.
     + rewrite <- HR0. exact Hr.
     + subst ip0. assert (Hvl : In vl (s :: v1)) by (right; exact Hin).
-      pose proof (HIv vl Hvl) as (Wl & _ & Hinl). unfold live_at in Hinl.
-      rewrite scan_abs in Hscan by exact Wl.
+      pose proof (HIv vl Hvl) as (_ & Wl & _ & Hinl). unfold live_at in Hinl.
+      rewrite scan_abs in Hscan by exact (proj1 Wl).
       rewrite (existsb_iff _ _ _ Hinl) in Hscan. subst r. split.
       * intros [rho [Hc Hl']]. destruct rho as [|k]; cbn [rlive rcovers] in *.
         -- specialize (Hl' s Hs_in). unfold live_at in Hl'. rewrite <- Hma in Hl'. congruence.
@@ -406,19 +425,19 @@ Qed.
 Lemma key_live_snoc k l o : key_live k (l ++ [o]) = klive_step k (key_live k l) o.
 Proof. unfold key_live. rewrite kl_app. reflexivity. Qed.
 
-Lemma InvQ_step s l s' : InvQ s -> step s l = Some s' -> InvQ s'.
+Lemma InvQ_step s l s' : InvR s -> InvQ s -> step s l = Some s' -> InvQ s'.
 Proof.
-  intros (Hlen & Hprog & Hkey & Hun) St. apply step_inv in St.
+  intros HI (Hlen & Hprog & Hkey & Hun) St. apply (step_inv _ _ _ HI) in St.
   (* the moving thread keeps its program; every other thread is untouched *)
   assert (Gen : forall th th', nth_error (threads s) (thread_of l) = Some th ->
             t_done th' ++ t_todo th' = t_done th ++ t_todo th ->
-            forall lin',
+            forall lin' f' c',
             (forall k, touched_in k (updates_of (t_done th ++ t_todo th)) = true ->
                        key_live k lin' = key_live k (updates_of (t_done th'))) ->
             (forall k, touched_in k (updates_of (t_done th ++ t_todo th)) = false ->
                        key_live k lin' = key_live k (lin s)) ->
-            InvQ (mkC (filt s') lin' (upd (threads s) (thread_of l) th'))).
-  { intros th th' Hth Hsame lin' Hown Hoth. unfold InvQ. cbn [threads lin].
+            InvQ (mkC f' lin' (upd (threads s) (thread_of l) th') c')).
+  { intros th th' Hth Hsame lin' f' c' Hown Hoth. unfold InvQ. cbn [threads lin].
     split; [rewrite upd_length; exact Hlen|]. split; [|split].
     - intros t x Hx. destruct (Nat.eq_dec (thread_of l) t) as [<-|Ne].
       + rewrite (nth_error_upd_eq _ _ _ _ Hth) in Hx. inversion Hx. subst x. rewrite Hsame. apply Hprog. exact Hth.
@@ -457,13 +476,13 @@ Proof.
     + reflexivity.
 Qed.
 
-Lemma InvQ_exec ls : forall s v f, InvQ s -> exec s ls = Some (v, f) -> InvQ f.
+Lemma InvQ_exec ls : forall s v f, InvR s -> InvQ s -> exec s ls = Some (v, f) -> InvQ f.
 Proof.
-  induction ls as [|l r IH]; intros s v f H E; cbn [exec] in E.
+  induction ls as [|l r IH]; intros s v f HI H E; cbn [exec] in E.
   - inversion E. subst. exact H.
   - destruct (step s l) as [s1|] eqn:St; [|discriminate].
     destruct (exec s1 r) as [[v1 f1]|] eqn:E1; [|discriminate]. inversion E. subst.
-    exact (IH s1 v1 f (InvQ_step _ _ _ H St) E1).
+    exact (IH s1 v1 f (InvR_step _ _ _ HI St) (InvQ_step _ _ _ HI H St) E1).
 Qed.
 
 (** after all threads have finished the linearised history agrees, range by range, with
@@ -473,7 +492,7 @@ Lemma finished_key_live ls s :
   forall k, key_live k (lin s) = key_live k (concat (map updates_of progs)).
 Proof.
   intros Hrun Hfin k. apply crun_exec in Hrun. destruct Hrun as [v E].
-  pose proof (InvQ_exec _ _ _ _ InvQ_init E) as (Hlen & Hprog & Hkey & Hun).
+  pose proof (InvQ_exec _ _ _ _ (InvR_init progs) InvQ_init E) as (Hlen & Hprog & Hkey & Hun).
   assert (Hdone : forall t th, nth_error (threads s) t = Some th -> t_todo th = []).
   { intros t th Hth. unfold finished in Hfin. rewrite forallb_forall in Hfin.
     specialize (Hfin th (nth_error_In _ _ Hth)). unfold thread_finished in Hfin.
@@ -501,9 +520,10 @@ Qed.
 
 Theorem quiescent ls s :
   crun (cinit progs) ls = Some s -> finished s = true ->
-  forall ip, contains (filt s) ip = spec_contains (concat (map updates_of progs)) ip.
+  forall ip, contains (filt s) ip = Some (spec_contains (concat (map updates_of progs)) ip).
 Proof.
-  intros Hrun Hfin ip. pose proof (InvR_reachable _ _ _ Hrun) as HR.
+  intros Hrun Hfin ip. pose proof (InvR_reachable _ _ _ Hrun) as [_ HR].
+  rewrite (contains_ok _ ip (proj1 HR)). f_equal.
   rewrite (R_contains _ _ ip HR). unfold live_at. fold (spec_contains (lin s) ip).
   apply keq_spec_contains. exact (finished_key_live ls s Hrun Hfin).
 Qed.
@@ -514,8 +534,20 @@ End Quiescent.
     which is an order-preserving merge of the threads' updates *)
 Theorem quiescent_linearised progs ls s :
   crun (cinit progs) ls = Some s ->
-  forall ip, contains (filt s) ip = spec_contains (lin s) ip.
-Proof. intros Hrun ip. exact (R_contains _ _ ip (InvR_reachable _ _ _ Hrun)). Qed.
+  forall ip, contains (filt s) ip = Some (spec_contains (lin s) ip).
+Proof.
+  intros Hrun ip. pose proof (InvR_reachable _ _ _ Hrun) as [_ HR].
+  rewrite (contains_ok _ ip (proj1 HR)). f_equal. exact (R_contains _ _ ip HR).
+Qed.
+
+(** C12_no_crash: no atomic section of any execution panics *)
+Theorem no_crash progs ls s : crun (cinit progs) ls = Some s -> crashed s = false.
+Proof. intros H. exact (proj1 (InvR_reachable _ _ _ H)). Qed.
+
+(** ... said step by step: from a reachable state every enabled label leads to a state that has not crashed *)
+Theorem no_crash_step progs ls s l s' :
+  crun (cinit progs) ls = Some s -> step s l = Some s' -> crashed s' = false.
+Proof. intros H St. exact (proj1 (InvR_step _ _ _ (InvR_reachable _ _ _ H) St)). Qed.
 
 (* ------------------------------------------------------------------ progress and termination *)
 
@@ -530,27 +562,27 @@ Proof.
   destruct (nth_error progs t); [|discriminate]. inversion H. subst th. discriminate.
 Qed.
 
-Lemma Wth_step s l s' : Wth s -> step s l = Some s' -> Wth s'.
+Lemma Wth_step s l s' : InvR s -> Wth s -> step s l = Some s' -> Wth s'.
 Proof.
-  intros W St t th nip Hth Hm. destruct (Nat.eq_dec (thread_of l) t) as [E|Ne].
-  - apply step_inv in St.
+  intros HI W St t th nip Hth Hm. destruct (Nat.eq_dec (thread_of l) t) as [E|Ne].
+  - apply (step_inv _ _ _ HI) in St.
     destruct St as [th0 o rest H1 H2 H3 Hlm Hs|th0 ip rest r H1 H2 H3 Hl Hcase Hs|th0 ip rest b H1 H2 H3 Hl Hma H4 Hs|th0 nip0 ip rest H1 H2 H3 Hl Hs];
       subst s'; cbn [set_thread threads] in Hth; rewrite E in *;
       rewrite (nth_error_upd_eq _ _ _ _ H1) in Hth; inversion Hth; subst th; cbn [returned t_mid t_todo] in *;
       try discriminate.
     eauto.
-  - rewrite (step_other _ _ _ _ St Ne) in Hth. exact (W _ _ _ Hth Hm).
+  - rewrite (step_other _ _ _ _ HI St Ne) in Hth. exact (W _ _ _ Hth Hm).
 Qed.
 
 Lemma Wth_reachable progs ls : forall s, crun (cinit progs) ls = Some s -> Wth s.
 Proof.
   intros s H. apply crun_exec in H. destruct H as [v E]. revert E.
-  generalize (Wth_init progs). generalize (cinit progs). revert v s.
-  induction ls as [|l r IH]; intros v s s0 W E; cbn [exec] in E.
+  generalize (Wth_init progs). generalize (InvR_init progs). generalize (cinit progs). revert v s.
+  induction ls as [|l r IH]; intros v s s0 HI W E; cbn [exec] in E.
   - inversion E. subst. exact W.
   - destruct (step s0 l) as [s1|] eqn:St; [|discriminate].
     destruct (exec s1 r) as [[v1 f1]|] eqn:E1; [|discriminate]. inversion E. subst.
-    exact (IH v1 s s1 (Wth_step _ _ _ W St) E1).
+    exact (IH v1 s s1 (InvR_step _ _ _ HI St) (Wth_step _ _ _ HI W St) E1).
 Qed.
 
 Lemma bytes_eqb_refl a : bytes_eqb a a = true.
@@ -570,23 +602,30 @@ Definition label_of (t : nat) (k : ukind) : label :=
 (** no call ever blocks for good or gets stuck: an unfinished thread always has an enabled label *)
 Theorem no_stuck progs ls s t th :
   crun (cinit progs) ls = Some s -> nth_error (threads s) t = Some th -> thread_finished th = false ->
-  exists l s', thread_of l = t /\ step s l = Some s'.
+  exists l s', thread_of l = t /\ step s l = Some s' /\ crashed s' = false.
 Proof.
   intros Hrun Hth Hnf. pose proof (Wth_reachable _ _ _ Hrun) as W.
+  pose proof (InvR_reachable _ _ _ Hrun) as HI. pose proof (InvR_wf _ HI) as Wf.
+  assert (G : forall l, thread_of l = t -> (exists s', step s l = Some s') ->
+                        exists l s', thread_of l = t /\ step s l = Some s' /\ crashed s' = false).
+  { intros l Hl [s' Hs]. exists l, s'. split; [exact Hl|]. split; [exact Hs|].
+    exact (proj1 (InvR_step _ _ _ HI Hs)). }
   destruct (t_mid th) as [nip|] eqn:Em.
   - destruct (W _ _ _ Hth Em) as [ip [rest Ht]].
-    exists (LockedScan t). eexists. split; [reflexivity|]. unfold step. cbn [thread_of]. rewrite Hth, Em, Ht. reflexivity.
+    apply (G (LockedScan t)); [reflexivity|]. unfold step. cbn [thread_of].
+    rewrite (proj1 HI), Hth, Em, Ht, (scan_ok _ nip Wf). eauto.
   - destruct (t_todo th) as [|[o|ip] rest] eqn:Et.
     + unfold thread_finished in Hnf. rewrite Et, Em in Hnf. discriminate.
-    + exists (label_of t (classify o)). eexists. split; [destruct (classify o); reflexivity|].
+    + apply (G (label_of t (classify o))); [destruct (classify o); reflexivity|].
       unfold step. replace (thread_of (label_of t (classify o))) with t by (destruct (classify o); reflexivity).
-      rewrite Hth, Em, Et.
-      replace (label_matches (label_of t (classify o)) (classify o)) with true; [reflexivity|].
-      destruct (classify o); cbn [label_of label_matches]; try reflexivity;
-        try (symmetry; apply cidr_eqb_refl). destruct b; reflexivity.
-    + exists (LoadMatchAll t). unfold step. cbn [thread_of]. rewrite Hth, Em, Et.
-      destruct (match_all (filt s)); [eexists; split; reflexivity|].
-      destruct (to4 ip); eexists; split; reflexivity.
+      rewrite (proj1 HI), Hth, Em, Et.
+      replace (label_matches (label_of t (classify o)) (classify o)) with true.
+      * rewrite (effect_ok _ o Wf). eauto.
+      * destruct (classify o); cbn [label_of label_matches]; try reflexivity;
+          try (symmetry; apply cidr_eqb_refl). destruct b; reflexivity.
+    + apply (G (LoadMatchAll t)); [reflexivity|]. unfold step. cbn [thread_of]. rewrite (proj1 HI), Hth, Em, Et.
+      destruct (match_all (filt s)); [eauto|].
+      destruct (to4 ip) as [b|] eqn:E4; [|eauto]. rewrite (be32_p_ok b (to4_length _ _ E4)). eauto.
 Qed.
 
 (** every execution is finite: each label strictly decreases the number of labels left *)
@@ -603,9 +642,9 @@ Proof.
   - cbn [upd map fold_right]. specialize (IH i H). lia.
 Qed.
 
-Theorem step_decreases s l s' : step s l = Some s' -> (measure s' < measure s)%nat.
+Theorem step_decreases s l s' : InvR s -> step s l = Some s' -> (measure s' < measure s)%nat.
 Proof.
-  intros St. apply step_inv in St. unfold measure.
+  intros HI St. apply (step_inv _ _ _ HI) in St. unfold measure.
   destruct St as [th o rest H1 H2 H3 Hlm Hs|th ip rest r H1 H2 H3 Hl Hcase Hs|th ip rest b H1 H2 H3 Hl Hma H4 Hs|th nip ip rest H1 H2 H3 Hl Hs];
     subst s'; cbn [set_thread threads];
     match goal with |- (list_sum (map _ (upd _ _ ?x)) < _)%nat =>
@@ -615,11 +654,16 @@ Proof.
     end; lia.
 Qed.
 
-Theorem exec_bounded ls : forall s v f, exec s ls = Some (v, f) -> (length ls + measure f <= measure s)%nat.
+Theorem exec_bounded ls : forall s v f,
+  InvR s -> exec s ls = Some (v, f) -> (length ls + measure f <= measure s)%nat.
 Proof.
-  induction ls as [|l r IH]; intros s v f E; cbn [exec] in E.
+  induction ls as [|l r IH]; intros s v f HI E; cbn [exec] in E.
   - inversion E. subst. cbn [length]. lia.
   - destruct (step s l) as [s1|] eqn:St; [|discriminate].
     destruct (exec s1 r) as [[v1 f1]|] eqn:E1; [|discriminate]. inversion E. subst.
-    specialize (IH _ _ _ E1). apply step_decreases in St. cbn [length]. lia.
+    specialize (IH _ _ _ (InvR_step _ _ _ HI St) E1). apply (step_decreases _ _ _ HI) in St. cbn [length]. lia.
 Qed.
+
+Theorem exec_bounded_init progs ls v f :
+  exec (cinit progs) ls = Some (v, f) -> (length ls + measure f <= measure (cinit progs))%nat.
+Proof. apply exec_bounded. apply InvR_init. Qed.
